@@ -64,26 +64,30 @@ def detailsOf (fs : FS) (abs : List Comp) (full : FPath) : Node → Except ErrCl
   | .symlink text => .ok (.symlink (fs.statKind abs full) (readLinkB text))
   | .special => .error .unknownType
 
-/-- the listing of `dir` and everything beneath it that `keep` lets through, parents first.  An
-excluded entry is neither reported nor descended; a symlink is a leaf: only real folders are descended. -/
+/-- one entry of a directory being listed; `sub` lists a sub-folder.  An excluded entry is neither
+reported nor descended; only a real folder is descended: a symlink is a leaf whatever it points at. -/
+def listStep (fs : FS) (abs : List Comp) (keep : String → Bool) (root : FPath)
+    (sub : FPath → List (String × Details) × List ErrClass)
+    (acc : List (String × Details) × List ErrClass) (e : FPath × Node) : List (String × Details) × List ErrClass :=
+  let name := e.1.getLast?.getD []
+  if name.contains '\\' then (acc.1, acc.2 ++ [.walk])
+  else
+    let rel := relString root e.1
+    if !keep rel then acc
+    else match detailsOf fs abs e.1 e.2 with
+      | .error c => (acc.1, acc.2 ++ [c])
+      | .ok d =>
+        match e.2 with
+        | .folder =>
+          let s := sub e.1
+          (acc.1 ++ (rel, d) :: s.1, acc.2 ++ s.2)
+        | _ => (acc.1 ++ [(rel, d)], acc.2)
+
+/-- the listing of `dir` and everything beneath it that `keep` lets through, parents first -/
 def listDir (fs : FS) (abs : List Comp) (keep : String → Bool) (root : FPath) :
     Nat → FPath → List (String × Details) × List ErrClass
   | 0, _ => ([], [])
-  | fuel + 1, dir =>
-    (fs.childrenOf dir).foldl (fun acc e =>
-      let name := e.1.getLast?.getD []
-      if name.contains '\\' then (acc.1, acc.2 ++ [.walk])
-      else
-        let rel := relString root e.1
-        if !keep rel then acc
-        else match detailsOf fs abs e.1 e.2 with
-          | .error c => (acc.1, acc.2 ++ [c])
-          | .ok d =>
-            match e.2 with
-            | .folder =>
-              let sub := listDir fs abs keep root fuel e.1
-              (acc.1 ++ (rel, d) :: sub.1, acc.2 ++ sub.2)
-            | _ => (acc.1 ++ [(rel, d)], acc.2)) ([], [])
+  | fuel + 1, dir => (fs.childrenOf dir).foldl (listStep fs abs keep root (listDir fs abs keep root fuel)) ([], [])
 
 def fullOf (st : DoerSt) (p : String) : Option FPath :=
   match st.root, relComps p with
